@@ -6,6 +6,7 @@
 # file and the code; (b) failing would mean the scenario is a false alarm on the unchanged tree.
 # usage: selftest/replaytest.sh [seeded-id-glob]        (default: every /verif/seeded/*/)
 set -u
+mkdir -p /root/scratch
 export GOFLAGS=-mod=mod GOPROXY=off GOSUMDB=off GOTOOLCHAIN=local
 cd /verif/seeded || exit 0
 rc=0
